@@ -467,10 +467,63 @@ def rule_dial_address(ctx):
     ctx.ob(R, "source watch", True, "the receiver is self.gossip.validator_addrs.subscribe()" if subs else "undecided shape (not reported)")
 
 
+def rule_get_newer(ctx):
+    R = "C18.9"
+    ctx.rule(R, "what a node pushes to a peer (ValidatorAddrs::get_newer(old)): an entry of the current book is sent exactly when the state last sent to that peer has no entry for the key or an older one (is_newer(current, old), strict) - sending less leaves peers on a stale address for good (nothing re-sends it), the comparison the other way round never propagates an update")
+    q = VA + "::get_newer"
+    fs = ctx.F.by_qname.get(q) or []
+    h = fs[0] if fs else getattr(ctx.F, "helpers", {}).get(q)
+    if h is None:
+        ctx.ob(R, "get_newer", False, "ValidatorAddrs::get_newer not found (anchor missing)")
+        return
+    T = ctx.T(h)
+    push = [c for c in T.calls() if c["q"].endswith(("Vec::push", "Vec::extend", "Vec::insert"))]
+    if not push:
+        ctx.note("C18.9 get_newer: no push loop (iterator chain or other form) - not decided")
+        ctx.ob(R, "get_newer form", True, "undecided shape (not reported)", h.loc())
+        return
+
+    def a_old(t):
+        return t[0] == "call" and t[1].endswith("HashMap::get") and len(t[2]) == 2 and chain(t[2][0])[0][0] == "param" and chain(t[2][0])[0][1] == 2
+
+    def a_newer(t):
+        return t[0] == "call" and t[1] == DISC + "::is_newer"
+    atoms = [Atom("old entry", "opt", a_old, ["None", "Some"]), call_atom("newer", ["NetAddress::is_newer"])]
+    if not (common.atom_is_tested_term(ctx, h, a_old) if hasattr(common, "atom_is_tested_term") else any((lambda si: si is not None and any(a_old(x) for x in subterms(si[0])))(T.switch_info(bb)) for bb in range(len(h.blocks)))):
+        ctx.note("C18.9 get_newer: the lookup in the old state is not tested directly - not decided")
+        ctx.ob(R, "get_newer form", True, "undecided shape (not reported)", h.loc())
+        return
+    head = loop_head(ctx, h, target=[c["bb"] for c in push])
+    W = Walker(ctx, h, atoms)
+    names, tab = W.table({"push": [c["bb"] for c in push]}, start=head if head is not None else 0)
+    bad = []
+    for (old, nw), reach in tab.items():
+        exp = old == "None" or nw is True
+        if ("push" in reach) != exp:
+            bad.append(((old, nw), sorted(reach)))
+    ctx.ob(R, "entry table", not bad, "an entry is pushed iff the old state has none for its key or it is newer (4 valuations)" if not bad else
+           "get_newer deviates for (old entry, is_newer) = %s: %s" % (bad[:3], "updates are not propagated" if any(k[0] == "Some" and k[1] is True for k, _ in bad) else "entries the peer already has are re-sent / wrong entries selected"), h.loc())
+    # operands: current.is_newer(old) - not the other way round
+    ok = True
+    why = ""
+    for c in T.calls():
+        if c["q"] == DISC + "::is_newer":
+            a = T.args_of(c)
+            cur_side = any(x[0] == "call" and x[1].endswith("Iterator::next") for x in subterms(a[0])) and not any(x[0] == "call" and x[1].endswith("HashMap::get") for x in subterms(a[0]))
+            old_side = any(x[0] == "call" and x[1].endswith("HashMap::get") for x in subterms(a[1]))
+            if not (cur_side and old_side):
+                ok = False
+                why = "is_newer(%s, %s)" % (show(a[0])[:50], show(a[1])[:50])
+    ctx.ob(R, "comparison direction", ok, "current_entry.is_newer(old_entry)" if ok else "the comparison is not `current entry is newer than the old one`: %s" % why, h.loc())
+    pv = [T.args_of(c)[1] for c in push if len(T.args_of(c)) > 1]
+    okp = bool(pv) and all(any(x[0] == "call" and x[1].endswith("Iterator::next") for x in subterms(v)) and not any(x[0] == "call" and x[1].endswith("HashMap::get") for x in subterms(v)) for v in pv)
+    ctx.ob(R, "pushed value", okp, "the pushed value is the current book's entry" if okp else "the value collected is not the current book's entry: %s" % [show(v)[:60] for v in pv][:2], h.loc())
+
+
 def rule_announcement_codec(ctx):
     from .c09 import rule_codec_api
     rule_codec_api(ctx, R="C18.8", only=lambda t: t.endswith(("discovery::NetAddress", "net::SocketAddr", "time::Utc", "msg::Signed", "msg::Msg")), floor=5,
                    desc="the announcement travels unchanged: the decoders / encoders of NetAddress, its SocketAddr and timestamp, and of the signed envelope call only reviewed value-preserving conversions (tables/codec_api.json) - a decoder that normalises the address makes the receiver hash another message than the validator signed, so an authentic newer announcement fails verification, the whole batch is dropped and the node keeps dialling the old address")
 
 
-RULES = [("C18.8", rule_announcement_codec), ("C18.1", rule_update_table), ("C18.2", rule_all_or_nothing), ("C18.3", rule_order), ("C18.4", rule_writers), ("C18.5", rule_handler), ("C18.7", rule_dial_address)]
+RULES = [("C18.9", rule_get_newer), ("C18.8", rule_announcement_codec), ("C18.1", rule_update_table), ("C18.2", rule_all_or_nothing), ("C18.3", rule_order), ("C18.4", rule_writers), ("C18.5", rule_handler), ("C18.7", rule_dial_address)]
